@@ -40,11 +40,14 @@ def wrap(v):
     if isinstance(v, z3.ExprRef):
         return SV(v)
     if isinstance(v, tuple):
-        return tuple(wrap(x) for x in v)
+        w = tuple(wrap(x) for x in v)
+        return v if all(a is b for a, b in zip(w, v)) else w
     if isinstance(v, list):
-        return [wrap(x) for x in v]
+        w = [wrap(x) for x in v]
+        return v if all(a is b for a, b in zip(w, v)) else w       # identity of plain containers is preserved
     if isinstance(v, dict):
-        return {k: wrap(x) for k, x in v.items()}
+        w = {k: wrap(x) for k, x in v.items()}
+        return v if all(w[k] is v[k] for k in v) else w
     return v
 
 
@@ -318,6 +321,22 @@ class SymKit(KitBase):
         v = self.I.lift(v)
         self.I.getattr(lifted_ds, "_variants")[0] = v
         self.I.setattr(v, "data", X)
+
+    def stubbed(self, target, replacement, reason, thunk):
+        """Run thunk with the real function `target` replaced by `replacement` (a contract-level function).  Every
+        use is an ASSUMPTION recorded in the evidence with its reason."""
+        from .interp import _MISSING
+        self.ctx.note_assumption(f"STUB {getattr(target, '__qualname__', target)}: {reason}")
+
+        def hook(I, fn, args, kwargs, node):
+            if fn is target:
+                return wrap(replacement(*[unwrap(a) for a in args], **{k: unwrap(v) for k, v in kwargs.items()}))
+            return _MISSING
+        self.I.call_hooks.append(hook)
+        try:
+            return thunk()
+        finally:
+            self.I.call_hooks.remove(hook)
 
     def register_source(self, fn, src, label="generated"):
         """Tell the engine the source text of a function created by exec() at run time (checked by bytecode)."""
@@ -646,6 +665,9 @@ class ConcKit(KitBase):
 
     def register_source(self, fn, src, label="generated"):
         pass
+
+    def stubbed(self, target, replacement, reason, thunk):
+        return thunk()
 
     def callable(self, fn):
         return fn
